@@ -179,44 +179,61 @@ def grep_forbidden():
     return hits
 
 
-def audit(prop):
-    """Builds Props/<prop> and runs Audit/<prop>.lean (`#print axioms` for every property
-    theorem).  Returns dict(obligations, discharged, theorems={name: axioms|None}, ok, log)."""
-    ok, out = lake_build(["AcmedVerif.Props.%s" % prop, "acmed_model"])
+def audit_files(prop, extra=()):
+    """Audit/<prop>.lean plus every Audit/<prop><Suffix>.lean (e.g. C11Store, C17Gen) plus `extra`
+    names (e.g. "FlowMisc")."""
+    d = os.path.join(LEAN, "AcmedVerif", "Audit")
+    names = []
+    for fn in sorted(os.listdir(d)):
+        if fn.endswith(".lean"):
+            n = fn[:-5]
+            if n == prop or (n.startswith(prop) and not n[len(prop)].isdigit()) or n in extra:
+                names.append(n)
+    return names
+
+
+def audit(prop, extra=()):
+    """Builds the Props modules of a property and runs its Audit files (`#print axioms` for every
+    property theorem).  Returns dict(obligations, discharged, theorems={name: axioms|None}, ok, log)."""
+    mods = audit_files(prop, extra)
+    ok, out = lake_build(["AcmedVerif.Props.%s" % m for m in mods] + ["acmed_model"])
     res = {"obligations": 0, "discharged": 0, "theorems": {}, "ok": False, "log": out[-6000:],
-           "forbidden": []}
-    audit_file = os.path.join(LEAN, "AcmedVerif", "Audit", prop + ".lean")
-    with open(audit_file) as f:
-        names = re.findall(r"#print axioms\s+(\S+)", strip_comments(f.read()))
+           "forbidden": [], "modules": mods}
+    names = []
+    for m in mods:
+        with open(os.path.join(LEAN, "AcmedVerif", "Audit", m + ".lean")) as f:
+            names += re.findall(r"#print axioms\s+(\S+)", strip_comments(f.read()))
     res["obligations"] = len(names)
     for n in names:
         res["theorems"][n] = None
-    if not ok:
+    if not ok or not mods:
         res["failed_build"] = True
         return res
-    if "declaration uses `sorry`" in out or "declaration uses 'sorry'" in out:
-        res["log"] = out[-6000:]
-    with Lock("lake"):
-        rc, aout = run(["lake", "env", "lean", audit_file], cwd=LEAN, timeout=1800)
+    aout = ""
+    rc = 0
+    for m in mods:
+        with Lock("lake"):
+            rc1, a1 = run(["lake", "env", "lean", os.path.join(LEAN, "AcmedVerif", "Audit", m + ".lean")],
+                          cwd=LEAN, timeout=1800)
+        rc = rc or rc1
+        aout += a1
     res["audit_log"] = aout[-6000:]
-    cur = None
-    text = aout.replace("\n  ", " ").replace("\n   ", " ")
+    found = {}
+    text = re.sub(r"\n\s+", " ", aout)
     for m in re.finditer(r"'([^']+)' depends on axioms: \[([^\]]*)\]|'([^']+)' does not depend on any axioms", text):
         if m.group(1):
-            axs = [a.strip() for a in m.group(2).replace("\n", " ").split(",") if a.strip()]
-            res["theorems"][m.group(1)] = axs
+            found[m.group(1)] = [a.strip() for a in m.group(2).split(",") if a.strip()]
         else:
-            res["theorems"][m.group(3)] = []
+            found[m.group(3)] = []
     bad = []
     for n in names:
-        full = [k for k in res["theorems"] if k == n or k.endswith("." + n) or n.endswith("." + k)]
-        axs = None
-        for k in full:
-            if res["theorems"][k] is not None:
-                axs = res["theorems"][k]
-        if axs is None:
+        cands = [k for k in found if k == n or k.endswith("." + n) or n.endswith("." + k)]
+        if not cands:
             bad.append((n, "no audit output"))
-        elif not set(axs) <= ALLOWED_AXIOMS:
+            continue
+        axs = found[cands[0]]
+        res["theorems"][n] = axs
+        if not set(axs) <= ALLOWED_AXIOMS:
             bad.append((n, "axioms " + ",".join(axs)))
         else:
             res["discharged"] += 1
@@ -358,8 +375,8 @@ class Ctx:
         """A theorem or a correspondence no longer checks (no failing judged input by itself)."""
         self.broken.append((what, detail, replay_obj))
 
-    def prove(self):
-        a = audit(self.prop)
+    def prove(self, extra=()):
+        a = audit(self.prop, extra)
         self.audit = a
         if not a["ok"]:
             detail = {"failed_build": a.get("failed_build", False), "bad": a.get("bad"),
@@ -397,7 +414,8 @@ class Ctx:
         cov = {
             "obligations": a["obligations"],
             "discharged": a["discharged"],
-            "checker_cmd": "lake build AcmedVerif.Props.%s && lake env lean AcmedVerif/Audit/%s.lean (axioms of every property theorem within {propext, Classical.choice, Quot.sound}; source grep for sorry/admit/axiom/native_decide/bv_decide/implemented_by/unsafe)" % (self.prop, self.prop),
+            "audit_modules": a.get("modules", []),
+            "checker_cmd": "lake build AcmedVerif.Props.%s* && lake env lean AcmedVerif/Audit/%s*.lean (axioms of every property theorem within {propext, Classical.choice, Quot.sound}; source grep for sorry/admit/axiom/native_decide/bv_decide/implemented_by/unsafe)" % (self.prop, self.prop),
             "trusted_base": trusted_base or [],
             "theorems": {k: v for k, v in a["theorems"].items()},
             "evaluations": self.evaluations,
